@@ -28,6 +28,10 @@ fn requests() -> Vec<Req> {
             // deep initiators: every parent domain, however many labels down, is covered by domain=
             ("https://a.com/x", "https://p.q.r.x.sub.a.com/"),
             ("https://a.com/x", "https://k.l.m.n.o.b.org/"),
+            // hosts that are no domain names (addresses, labels with an underscore): each is a site of its own
+            ("http://10.0.1.10/x", "http://192.168.1.10/"),
+            ("http://10.0.1.10/x", "http://10.0.1.10/p"),
+            ("https://img_cdn.shop.co.uk/x", "https://my_blog.news.co.uk/"),
         ] {
             if let Some(q) = make_req(url, src, ty) {
                 v.push(q);
@@ -37,8 +41,35 @@ fn requests() -> Vec<Req> {
     v
 }
 
+/// (url, source, third party?) — the party of the fixed requests, stated independently of the crate's domain resolver
+const PARTY: &[(&str, &str, bool)] = &[
+    ("https://a.com/x", "https://a.com/", false), ("https://a.com/x", "https://sub.a.com/p", false), ("https://a.com/x", "https://b.org/", true),
+    ("https://a.com/x", "https://x.sub.a.com/", false), ("https://a.com/x", "", true), ("https://a.com/x", "https://nota.com/", true),
+    ("https://a.com/x", "https://p.q.r.x.sub.a.com/", false), ("https://a.com/x", "https://k.l.m.n.o.b.org/", true),
+    ("http://10.0.1.10/x", "http://192.168.1.10/", true), ("http://10.0.1.10/x", "http://10.0.1.10/p", false), ("http://10.0.1.10/x", "http://10.0.1.11/", true),
+    ("https://img_cdn.shop.co.uk/x", "https://my_blog.news.co.uk/", true), ("https://shop.co.uk/x", "https://news.co.uk/", true),
+    ("https://a.shop.co.uk/x", "https://b.shop.co.uk/", false), ("http://[::1]/x", "http://[::2]/", true), ("https://localhost/x", "https://intranet/", true),
+];
+
 pub fn run(seed: u64, n: usize, out: &mut Out, tier: &str) {
     let mut r = Rng::new(seed);
+    for (u, s, third) in PARTY {
+        for ty in ["script", "image"] {
+            if let Ok(q) = adblock::request::Request::new(u, s, ty) {
+                if q.is_third_party != *third {
+                    out.fail("party-of-a-fixed-request", None, json!({"url": u, "source": s, "is_third_party": q.is_third_party, "expected": third}));
+                }
+                // and the party options applied to it, through one-rule engines
+                for (rule, want) in [("*$third-party", *third), ("*$~third-party", !*third), ("*$3p,script", *third && ty == "script"), ("*$1p", !*third)] {
+                    let e = adblock::Engine::from_rules_parametrised(&[rule.to_string()], Default::default(), true, false);
+                    if e.check_network_request(&q).matched != want {
+                        out.fail("party-option-on-a-fixed-request", None, json!({"rule": rule, "url": u, "source": s, "type": ty, "expected_match": want}));
+                    }
+                }
+                out.bump("fixed_party_requests");
+            }
+        }
+    }
     let reqs = requests();
     let dumps: Vec<String> = reqs.iter().map(|q| q.dump.clone()).collect();
     let mut optsets: Vec<String> = vec![String::new()];
